@@ -1,6 +1,7 @@
 (* Calcium/DeployProofs.v — the per-instance transaction of a deployment (doDeployOneWorkload)
    for a fresh id, EVERY world and EVERY fault position: success = the workload is recorded and
-   its container running; failure = no record and no container are left (markers and WAL aside). *)
+   its container running; failure = no record and no container are left (markers and WAL aside);
+   and the per-node instance loop by induction over the instances. *)
 From Coq Require Import List Bool Arith ZArith Lia Permutation.
 From Verif Require Import Base.Effects Calcium.World Calcium.Ops Calcium.EffectsProofs Calcium.OpsProofs Calcium.OpsProofs2 Calcium.InvProofs.
 Import ListNotations.
@@ -151,13 +152,13 @@ Proof. intros i rest failed H. unfold succ_of. simpl. rewrite H. reflexivity. Qe
 Lemma deploy_loop_spec : forall opi pod n r idxs w k,
   NoDup idxs -> (forall i, In i idxs -> fresh w opi n i) ->
   exists w' k' failed ms, crunk (deploy_loop opi pod n r idxs) w k = (w', k', (failed, ms)) /\
-    incl failed idxs /\
+    incl failed idxs /\ failed = filter (fun i => existsb (Nat.eqb i) failed) idxs /\
     ms = map (fun i => if existsb (Nat.eqb i) failed then MCreateFail n else MCreateOk (mkWid opi n i) r) idxs /\
     core3 w' w (wls w ++ map (inst opi pod n r) (succ_of idxs failed))
                (conts w ++ map (instc opi n) (succ_of idxs failed)).
 Proof.
   intros opi pod n r idxs. induction idxs as [|i rest IH]; intros w k Hnd Hfresh.
-  - unfold crunk. simpl. do 4 eexists. split; [reflexivity|]. split; [intros ? []|]. split; [reflexivity|].
+  - unfold crunk. simpl. do 4 eexists. split; [reflexivity|]. split; [intros ? []|]. split; [reflexivity|]. split; [reflexivity|].
     simpl. rewrite !app_nil_r. repeat split.
   - inversion Hnd as [|? ? Hni Hnd']; subst.
     cbn [deploy_loop]. rewrite crunk_bind.
@@ -176,7 +177,7 @@ Proof.
       - destruct (Hok eq_refl) as [_ [_ [_ [_ [_ [_ [Hw1 Hc1]]]]]]]. rewrite Hw1, Hc1.
         rewrite find_wl_app_other by (apply wid_neq; auto).
         rewrite find_cont_app_other by (apply wid_neq; auto). auto. }
-    destruct (IH w2 k2 Hnd' Hfresh2) as [w3 [k3 [failed [ms [H3 [Hincl [Hms Hcore]]]]]]].
+    destruct (IH w2 k2 Hnd' Hfresh2) as [w3 [k3 [failed [ms [H3 [Hincl [Hsub [Hms Hcore]]]]]]]].
     rewrite H3. unfold crunk. cbn [runk].
     assert (Hnotin : existsb (Nat.eqb i) failed = false).
     { destruct (existsb (Nat.eqb i) failed) eqn:E; auto. apply existsb_exists in E. destruct E as [j [Hj E]].
@@ -191,6 +192,9 @@ Proof.
       exists w3, k3, (i :: failed), (MCreateFail n :: ms). split; [reflexivity|].
       split; [intros j [<-|Hj]; [left; reflexivity|right; apply Hincl; exact Hj]|].
       split.
+      { cbn [filter existsb]. rewrite Nat.eqb_refl. cbn [orb]. f_equal. rewrite Hsub at 1. apply filter_ext_in. intros j Hj.
+        assert (Nat.eqb j i = false) as -> by (apply Nat.eqb_neq; intro; subst; auto). reflexivity. }
+      split.
       * cbn [map existsb]. rewrite Nat.eqb_refl. cbn [orb]. f_equal. rewrite Hms. apply map_ext_in. intros j Hj.
         assert (Nat.eqb j i = false) as -> by (apply Nat.eqb_neq; intro; subst; auto). reflexivity.
       * rewrite succ_of_failed_head by exact Hni.
@@ -200,6 +204,8 @@ Proof.
       destruct (Hok eq_refl) as [Hp1 [Hn1 [Hpl1 [_ [Hst1 [Hsc1 [Hw1 Hc1]]]]]]].
       exists w3, k3, failed, (MCreateOk (mkWid opi n i) r :: ms). split; [reflexivity|].
       split; [intros j Hj; right; apply Hincl; exact Hj|].
+      split.
+      { cbn [filter]. rewrite Hnotin. exact Hsub. }
       split.
       * cbn [map]. rewrite Hnotin. f_equal. exact Hms.
       * rewrite succ_of_ok_head by exact Hnotin. cbn [map].
